@@ -352,7 +352,7 @@ func explore(sys actor.ActorSystem, runs, nprod, nmsgs int, seed int64, w *vtrac
 	rng := rand.New(rand.NewSource(seed))
 	rec := &recorder{w: w}
 	for run := 0; run < runs; run++ {
-		w.Raw(map[string]any{"ev": "New", "id": 0, "g": 0, "t": ""})
+		w.Raw(map[string]any{"ev": "New", "id": 0, "g": 0, "t": "", "at": "", "on": ""})
 		pid, err := sys.Spawn(ctx, "x"+strconv.Itoa(run), &testActor{r: rec}, actor.WithLongLived())
 		if err != nil {
 			fatal("spawn", err)
@@ -483,6 +483,17 @@ func explore(sys actor.ActorSystem, runs, nprod, nmsgs int, seed int64, w *vtrac
 				}
 			}
 			before, _ := s.Pending(best)
+			if len(blocked) == 0 { // only sequential prefixes are comparable with the model step by step
+				on := ""
+				if before.Obj == user {
+					on = "user"
+				} else if before.Obj == system {
+					on = "system"
+				}
+				w.Emit(map[string]any{"ev": "step", "id": 0, "g": 0, "t": best, "at": before.Point, "on": on})
+			} else {
+				w.Emit(map[string]any{"ev": "concurrent", "id": 0, "g": 0, "t": best, "at": before.Point, "on": ""})
+			}
 			if err := s.Release(best); err != nil {
 				continue
 			}
